@@ -105,3 +105,16 @@ func TestSizes(t *testing.T) {
 	}
 	ev.R().Sub(ev.SubRun{Name: "registry-sizes", Bound: "registry sizes 6..40 in order, 4 goroutines taking the listings and rendering plus a registry reader at each size", Cases: 35, Exhaustive: true})
 }
+
+// TestWiden: goroutines that are released together render tables of their own, each wider than anything the
+// process has drawn so far, round after round; each output is judged on its own (a rectangle holding its own text).
+func TestWiden(t *testing.T) {
+	var n int64
+	for _, c := range []Case{{Widen: 400, WidenFrom: 60, WidenStep: 5}} {
+		n += int64(c.Widen)
+		if v := prop.Eval(c); v != nil {
+			t.Fatalf("VIOLATION %s", ID)
+		}
+	}
+	ev.R().Sub(ev.SubRun{Name: "widening", Bound: "400 rounds of 4 goroutines released together, widest cell growing from 60 to about 2060 cells, then every width rendered alone", Cases: n, Exhaustive: false})
+}
